@@ -8,6 +8,7 @@ import (
 	"testing"
 
 	"pgregory.net/rapid"
+	"verifharness/bmodel"
 	"verifharness/evid"
 	"verifharness/gen"
 	"verifharness/rk"
@@ -130,9 +131,12 @@ func analyze(prog []*gen.Node) (outerAssign, readAfterClose bool) {
 	return
 }
 
+// builtinModels: the reference models of the field builtins (only the cases that call them need it).
+var builtinModels = bmodel.Field()
+
 func judge(t rk.Failer, slot string, c *sem.Case, nontrivial bool, labels ...string) {
 	c.Print(nil)
-	v := sem.Decide(c, func() sem.ImplOut { return sem.RunV1(c, 0) }, nil, true, true)
+	v := sem.Decide(c, func() sem.ImplOut { return sem.RunV1(c, 0) }, builtinModels, true, true)
 	if v.Discard != nil {
 		evid.Discard(v.Discard.Error())
 		return
@@ -543,6 +547,60 @@ func TestLoopClauseScope(t *testing.T) {
 		judge(t, "clause-scope", cs, true, "loop-clause-scope/"+c.name)
 	}
 	evid.Exhaustive("loop clause scope cases", len(cases))
+}
+
+// TestPointKeyAfterBuiltinWrite: a name that has no variable is read from the point every time - also right after a
+// builtin rewrote that key (with an argument that mentions the key itself), without any call in between.
+func TestPointKeyAfterBuiltinWrite(t *testing.T) {
+	writes := []func() *gen.Node{
+		func() *gen.Node { return gen.NCall("add_key", id("k"), gen.NBin("+", id("k"), gen.NInt(1))) },
+		func() *gen.Node { return gen.NCall("add_key", id("k"), gen.NCall("len", id("k"))) },
+		func() *gen.Node { return gen.NCall("add_key", id("k"), gen.NList(id("k"), id("k"))) },
+		func() *gen.Node { return gen.NCall("cast", id("k"), gen.NStr("str")) },
+		func() *gen.Node { return gen.NCall("strfmt", id("k"), gen.NStr("%v.local"), id("k")) },
+		func() *gen.Node { return gen.NCall("rename", id("k"), id("k2")) },
+		func() *gen.Node { return gen.NCall("drop_key", id("k")) },
+		func() *gen.Node { return gen.NCall("set_tag", id("k"), gen.NStr("tv")) },
+	}
+	reads := []func() []*gen.Node{
+		func() []*gen.Node { return []*gen.Node{gen.NSet("x", id("k")), gen.NCall("probe", gen.NStr("x"), id("x"))} },
+		func() []*gen.Node {
+			return []*gen.Node{gen.NIf([]*gen.Node{gen.NBin("==", id("k"), gen.NInt(2))}, [][]*gen.Node{{gen.NSet("hit", gen.NBool(true))}}, []*gen.Node{gen.NSet("hit", gen.NBool(false))}, true), gen.NCall("probe", gen.NStr("hit"), id("hit"))}
+		},
+		func() []*gen.Node { return []*gen.Node{gen.NSet("x", gen.NList(id("k"), id("k2"))), gen.NCall("probe", gen.NStr("pair"), id("x"))} },
+		func() []*gen.Node { return []*gen.Node{gen.NAssign("+=", []*gen.Node{id("acc")}, []*gen.Node{id("k")}), gen.NCall("probe", gen.NStr("acc"), id("acc"))} },
+	}
+	n := 0
+	for wi, w := range writes {
+		for ri, r := range reads {
+			for _, kv := range []any{int64(1), "s", 2.5, nil} {
+				for ctx := 0; ctx < 3; ctx++ {
+					body := append([]*gen.Node{gen.NSet("before", id("k")), w()}, r()...)
+					var prog []*gen.Node
+					switch ctx {
+					case 0:
+						prog = append([]*gen.Node{gen.NSet("acc", gen.NInt(0))}, body...)
+					case 1:
+						prog = []*gen.Node{gen.NSet("acc", gen.NInt(0)), gen.NForIn("e", gen.NList(gen.NInt(1), gen.NInt(2)), body)}
+					default:
+						// the key drives a loop condition
+						prog = []*gen.Node{gen.NSet("acc", gen.NInt(0)), gen.NSet("n", gen.NInt(0)), gen.NFor(nil, gen.NBin("<", id("n"), gen.NInt(3)), nil, append(body, gen.NSet("n", gen.NBin("+", id("n"), gen.NInt(1)))))}
+					}
+					c := sem.NewCase(gen.FixAll(prog))
+					c.Fields = map[string]any{"k": kv, "k2": "second"}
+					judge(t, "key-after-write", c, true, "point-key-after-builtin-write")
+					n++
+				}
+			}
+			_ = wi
+			_ = ri
+		}
+	}
+	// the loop of the report: the condition reads the key the body rewrites
+	c := sem.NewCase(gen.FixAll([]*gen.Node{gen.NFor(nil, gen.NBin("<", id("k"), gen.NInt(5)), nil, []*gen.Node{gen.NCall("add_key", id("k"), gen.NBin("+", id("k"), gen.NInt(1)))}), gen.NSet("x", id("k")), gen.NCall("probe", gen.NStr("end"), id("x"))}))
+	c.Fields = map[string]any{"k": int64(1)}
+	judge(t, "key-after-write", c, true, "point-key-after-builtin-write")
+	evid.Exhaustive("builtin write x bare read x key value x context", n+1)
 }
 
 // TestEmptyBranchTable: a truthy branch with an empty block still ends the statement.
